@@ -219,7 +219,8 @@ func c20Send(w *W) {
 	ivals := []struct {
 		arg string
 		d   time.Duration
-	}{{"1", time.Second}, {"3", 3 * time.Second}, {"250ms", 250 * time.Millisecond}, {"1500ms", 1500 * time.Millisecond}, {"0", 0}}
+	}{{"1", time.Second}, {"3", 3 * time.Second}, {"250ms", 250 * time.Millisecond}, {"1500ms", 1500 * time.Millisecond}, {"0", 0},
+		{"010", 10 * time.Second}, {"08", 8 * time.Second}, {"0003", 3 * time.Second}} // bare integers are decimal seconds
 	iv := ivals[w.Choose(simrt.SShape, len(ivals))]
 	if iv.arg == "0" && (pat.flag == "--pair" || pat.flag == "--bus") {
 		// with an interval of zero the send/receive loop of these patterns
@@ -345,6 +346,10 @@ func c20Reject(w *W) {
 		{"--pull", "--bind", addr, "--recv-timeout", "soon"},             // not a duration
 		{"--push", "--bind", addr, "--data", "x", "--count", "many"},     // not a number
 		{"--no-such-option"},
+		{"--pull", "--bind", addr, "--recv-timeout", "0x10"}, // not a bare integer, not a duration
+		{"--pull", "--bind", addr, "--recv-timeout", "1_0"},
+		{"--push", "--bind", addr, "--data", "x", "--interval", "0b11"},
+		{"--push", "--bind", addr, "--data", "x", "--send-delay", "0o17"},
 		{"--push", "--bind", addr, "--data", "", "--file", "/etc/hostname"},   // explicitly empty data, then a file
 		{"--push", "--bind", addr, "--data=", "--file", "/etc/hostname"},      // same, = form
 		{"--push", "--bind", addr, "--file", "/etc/hostname", "--data", ""},   // other order
